@@ -25,16 +25,22 @@ def fmtOps (args : List String) : Option String :=
   | ["addstr", f, t] => do pure ("ok " ++ encFmt (addStr (← decFmt f) (← decText t)))
   | ["raddstr", f, t] => do pure ("ok " ++ encFmt (raddStr (← decFmt f) (← decText t)))
   | ["mul", f, n] => do pure ("ok " ++ encFmt (mul (← decFmt f) (← n.toInt?)))
+  | ["rmul", n, f] => do pure ("ok " ++ encFmt (rmul (← n.toInt?) (← decFmt f)))
   | "join" :: sep :: items => do
     let sep ← decFmt sep
     let items ← items.mapM decFmt
     pure ("ok " ++ encFmt (join sep items))
   | ["splice", f, new, start, e] => do
-    pure ("ok " ++ encFmt (splice (← decFmt f) (← decFmt new) (← start.toNat?) (← decOptNat e)))
+    let st ← start.toNat?
+    let en ← decOptNat e
+    if en.getD st < st then none   -- outside the model's domain (see `splice`)
+    else pure ("ok " ++ encFmt (splice (← decFmt f) (← decFmt new) st en))
   | ["append", f, new] => do pure ("ok " ++ encFmt (append (← decFmt f) (← decFmt new)))
   | ["setslice", f, a, b, fs, l] => do
-    pure (encExcept encFmt
-      (setsliceWithLength (← decFmt f) (← a.toNat?) (← b.toNat?) (← decFmt fs) (← l.toNat?)))
+    let a ← a.toNat?
+    let b ← b.toNat?
+    if b < a then none   -- outside the model's domain (splice with end < start)
+    else pure (encExcept encFmt (setsliceWithLength (← decFmt f) a b (← decFmt fs) (← l.toNat?)))
   | ["cwna", f, a] => do pure ("ok " ++ encFmt (copyWithNewAtts (← decFmt f) (← decAtts a)))
   | "nwar" :: f :: ks => do
     pure ("ok " ++ encFmt (newWithAttsRemoved (← decFmt f) (← ks.mapM decKey)))
